@@ -25,7 +25,7 @@ func C04(o *world.Obs) *Result {
 			}
 		}
 		if prevReq != nil {
-			for _, f := range []string{"X-A", "X-B", "Accept-Encoding", "Accept-Language"} {
+			for _, f := range []string{"X-A", "X-B", "Accept-Encoding", "Accept-Language", "Authorization", "Cookie", "User-Agent"} {
 				if model.SurelyDifferent(ReqHeader(prevReq.Req).Values(f), ReqHeader(ex.Req).Values(f)) {
 					differing++
 					break
